@@ -59,6 +59,10 @@ def main():
         EXTRA = EXTRA_G
     if suffix in ("h", "i"):
         EXTRA = None
+    if suffix == "j":
+        EXTRA = ("no category is forced in this round: choose whatever realistic regression you judge MOST LIKELY TO ESCAPE a careful property-based checker that already "
+                 "exercises tolerance tricks, dtypes and overflow, caches and call sequences on shared objects, seed kinds, non-finite values, degenerate sizes, label alphabets, memory layouts, "
+                 "aliasing of inputs and results, and argument objects of every form.  Earlier rounds already produced these changes, so choose something different: {prev}.")
     for pid in sys.argv[2:]:
         p = props[pid]; name = pid + suffix
         wt = f'/tmp/wt/{name}'; out = f'/tmp/mut/{name}'
